@@ -97,10 +97,11 @@ def allMembersFrom : Nat → List Obj → List Member
 
 def allMembers (ys : List Obj) : List Member := allMembersFrom 0 ys
 
-/-- Stable insertion: larger alignment first, earlier input first among equals. -/
+/-- Stable insertion (`m` is earlier in the input than everything in the list): larger alignment
+first, earlier input first among equals. -/
 def insertMember (m : Member) : List Member → List Member
   | [] => [m]
-  | x :: rest => if x.sec.alignExp < m.sec.alignExp then m :: x :: rest else x :: insertMember m rest
+  | x :: rest => if x.sec.alignExp ≤ m.sec.alignExp then m :: x :: rest else x :: insertMember m rest
 
 def sortMembers : List Member → List Member
   | [] => []
